@@ -65,7 +65,7 @@ deriving Repr
 def PySet.size (s : PySet) : Nat := s.table.size
 def PySet.mask (s : PySet) : Nat := s.table.size - 1
 
-abbrev slotAt (t : Array Slot) (j : Nat) : Slot := t.getD j .empty
+@[inline] def slotAt (t : Array Slot) (j : Nat) : Slot := t.getD j .empty
 
 /-! ### the probe sequence -/
 
